@@ -40,12 +40,23 @@ def attach_hooks(run):
     import felupe as fem
     FV = fem.FreeVibration
 
+    def pre_evaluate(self, args, kwargs):
+        # reference matrices from the state *before* the call (evaluate scales the items' matrices in place)
+        x = kwargs.get("x0", args[0] if args else None) or self.items[0].field
+        try:
+            return reassemble(self.items, x)
+        except Exception:
+            return None
+
     def post_evaluate(self, args, kwargs, ctx, result, exc):
         if exc is not None:
             return
         run.seen("modal")
         x = kwargs.get("x0", args[0] if args else None) or self.items[0].field
-        K, M = reassemble(self.items, x)
+        if ctx is None:
+            run.skip("modal", "items could not be re-assembled before the call")
+            return
+        K, M = ctx
         model = Model(x)
         dof0 = model.dof0(self.boundaries)
         dof1 = np.setdiff1d(np.arange(model.n), dof0)
@@ -70,9 +81,25 @@ def attach_hooks(run):
         run.compare("modal", "clause=eigen-residual", worst, 1e-9, "a returned pair does not satisfy K v = lambda M v on the free unknowns "
                     "(K, M re-assembled from the items)", unit="modal:residual", config=("modal", len(lam), len(dof1)),
                     sample={"free_unknowns": int(len(dof1)), "modes": int(len(lam)), "eigenvalues": lam[:6].tolist(), "worst_relative_residual": worst})
+        # the pairs are genuine and distinct: non-zero vectors, M-orthogonal for separated eigenvalues, no vector returned twice
+        nv = np.linalg.norm(V, axis=0)
+        G = V.T @ (M11 @ V)
+        dg = np.sqrt(np.abs(np.diag(G)))
+        if np.any(nv == 0) or np.any(dg == 0):
+            run.fail("modal", "clause=non-trivial-vectors", "a returned eigenvector is zero (or has zero mass norm)")
+        else:
+            Gn = G / np.outer(dg, dg)
+            sep = np.abs(lam[:, None] - lam[None, :]) > 1e-6 * max(float(np.max(np.abs(lam))), 1e-300)
+            off = np.where(sep, np.abs(Gn), 0.0)
+            run.compare("modal", "clause=modes-m-orthogonal", float(off.max()) if off.size else 0.0, 1e-6,
+                        "eigenvectors of separated eigenvalues are not M-orthogonal (a pair returned twice, or not eigenvectors of the pencil)",
+                        unit="modal:orthogonal")
+            dup = np.abs(Gn) - np.eye(len(lam))
+            if len(lam) > 1 and np.max(np.abs(dup) * (~sep)) > 1 - 1e-9 and np.any((np.abs(Gn) > 1 - 1e-9) & ~np.eye(len(lam), dtype=bool)):
+                run.fail("modal", "clause=distinct-modes", "the same eigenvector is returned more than once")
         self._vmon = {"K": K, "M": M, "dof0": dof0, "dof1": dof1}
 
-    attach.wrap_method(FV, "evaluate", post=post_evaluate)
+    attach.wrap_method(FV, "evaluate", pre=pre_evaluate, post=post_evaluate)
 
     def post_extract(self, args, kwargs, ctx, result, exc):
         if exc is not None:
@@ -144,6 +171,37 @@ def case_constrained(fam, rep):
             for n in range(k):
                 job.extract(n, inplace=False)
             run.configs.add(str(("constrained", fam, bkind, k)))
+        finally:
+            attach.detach_all()
+    return fn
+
+
+def case_items(fam, rep):
+    """Several items on one field (each with its own multiplier and density), the condensed nearly-incompressible body as item,
+    threaded assembly."""
+    def fn(run):
+        import felupe as fem
+        rng = rng_for(run.seed, "C18", "items", fam, rep)
+        attach_hooks(run)
+        try:
+            solid, field, mesh, L, par = build(rng, fam)
+            umat2 = type(solid.umat)(E=float(rng.uniform(1, 50)), nu=float(rng.uniform(0.1, 0.4)))
+            s2 = fem.SolidBody(umat2, field, density=float(rng.uniform(0.5, 5)), multiplier=float(rng.uniform(0.3, 3)) if rep % 2 else None)
+            b = {"left": fem.Boundary(field[0], fx=0.0)}
+            nfree = len(fem.dof.partition(field, b)[1])
+            k = max(1, min(int(rng.integers(2, 9)), nfree - 2))
+            items = [solid, s2]
+            if rep % 3 == 0:
+                items.append(fem.SolidBodyNearlyIncompressible(fem.NeoHooke(mu=float(rng.uniform(0.5, 2))), field, bulk=float(rng.uniform(20, 200)),
+                                                              density=float(rng.uniform(0.5, 5))))
+                run.units["modal:item:SolidBodyNearlyIncompressible"] += 1
+            job = fem.FreeVibration(items, b).evaluate(k=k, parallel=bool(rep % 2))
+            for n in range(k):
+                job.extract(n, inplace=False)
+            run.units["modal:items>=2"] += 1
+            if rep % 2:
+                run.units["modal:parallel"] += 1
+            run.configs.add(str(("items", fam, len(items), rep % 2)))
         finally:
             attach.detach_all()
     return fn
@@ -242,6 +300,9 @@ def cases(tier, seed):
             out.append(("rigid:%s:%d" % (fam, rep), case_rigid(fam, rep)))
     for rep in range(1 if tier == "quick" else 4):
         out.append(("mixed:%d" % rep, case_mixed(rep)))
+    for fam in ("hexahedron", "quad", "tetra10"):
+        for rep in range(2 if tier == "quick" else 6):
+            out.append(("items:%s:%d" % (fam, rep), case_items(fam, rep)))
     for fam in ("hexahedron", "quad", "tetra"):
         for rep in range(1 if tier == "quick" else 4):
             out.append(("prestretched:%s:%d" % (fam, rep), case_prestretched(fam, rep)))
@@ -250,7 +311,8 @@ def cases(tier, seed):
 
 SPEC = {
     "required_units": ["modal:residual", "modal:prescribed", "modal:scatter", "modal:frequency", "modal:rigid-modes:2d", "modal:rigid-modes:3d",
-                       "modal:invariance", "modal:mixed-container", "modal:prestretched"],
+                       "modal:invariance", "modal:mixed-container", "modal:prestretched", "modal:orthogonal", "modal:items>=2", "modal:parallel",
+                       "modal:item:SolidBodyNearlyIncompressible"],
     "rule": ("linear-elastic bodies on 8 element families (3D and plane strain) with random box dimensions, elastic constants, densities, three "
              "kinds of boundary dictionaries, 1..12 requested modes; unconstrained bodies through a solver= with a small negative shift; "
              "mixed u/p/J container; every evaluate()/extract() is judged by the post-hooks with K and M re-assembled from item copies; a "
